@@ -5,7 +5,7 @@ From Coq Require Import List ZArith NArith String Bool.
 From PV Require Import Base.CRC32 IC10.Sig Model.Tables Model.TablesProofs.
 From PVGen Require Import GenEnums GenStructs GenIntrinsics.
 Import ListNotations.
-Open Scope string_scope.
+Local Open Scope string_scope.
 
 Definition lts : list string :=
   match assoc "LogicType" gen_enums with Some m => map fst m | None => [] end.
